@@ -383,6 +383,12 @@ def run(ctx):
     hooks = [s for s in P.callers(r'^rip_kernel::Runtime::register_hook$|^rip_kernel::hooks::HookEngine::register$') if not s.fn.path.startswith('rip_kernel::')]
     ctx.ob('C07.6', 'workspace', 'no-production-hooks', not hooks, 'Runtime::register_hook callers outside rip_kernel: %s' % [s.fn.path for s in hooks])
 
+    # ---------------------------------------------------------------- C07.9
+    ctx.rule('C07.9', 'every run ends: each iteration of the per-call loop of the provider agent loop passes the increment of the bounded tool-call counter (shared with C16.1) — a provider that keeps sending calls which are answered but not counted would keep the run, and its session_ended / run_ended frames, from ever coming.')
+    from .c16 import counted_every_iteration
+    okit, whyit, lnit = counted_every_iteration(P)
+    ctx.ob('C07.9', P.body('ripd::session::run_openresponses_agent_loop'), 'bounded-agent-loop', okit, whyit, line=lnit)
+
     # ---------------------------------------------------------------- C07.8
     from .common import char_boundary_ops
     ctx.rule('C07.8', 'the run cannot die on text it does not control: in everything reachable from run_session (provider pipe, agent loop, tool runner, store appends) there is no byte-offset string operation that panics off a UTF-8 character boundary (String::truncate / split_off / insert / remove / drain / replace_range, str::split_at, str range indexing) unless the same function derives or tests the offset (is_char_boundary, char_indices, find, len_utf8). A panic in the spawned run task leaves the session without its end frame and the run without run_ended.')
